@@ -303,8 +303,23 @@ pub fn gen_html(s: &mut Src, max_tokens: usize) -> String {
         out.push_str(&gen_doctype(s));
     }
     for _ in 0..n {
-        match s.weighted(&[40, 22, 16, 4, 2, 2, 3, 3, 1, 1]) {
+        match s.weighted(&[40, 22, 16, 4, 2, 2, 3, 3, 1, 1, 1]) {
             8 => gen_select_block(s, &mut out),
+            10 => {
+                // the stack of template insertion modes: templates (nested) with mode-switching
+                // start tags inside, closed or not, then table-structure / body content
+                out.push_str(*s.pick(&["<template>", "<div><template>", "<table><template>", "<head><template>", "<template><div><template>", "<select><template>"]));
+                for _ in 0..s.below(5) {
+                    out.push_str(*s.pick(&[
+                        "<col>", "<tr>", "<td>", "<caption>", "<tbody>", "<colgroup>", "<div>", "x", "<template>", "</template>", "<select>", "<svg>", "<p>",
+                        "<frameset>", "<body>", "<html>", "<head>", "<title>t</title>", "<script></script>", "<table>", "</table>", "<th>", "<thead>",
+                    ]));
+                }
+                if s.chance(160) {
+                    out.push_str("</template>");
+                }
+                out.push_str(*s.pick(&["<td>x", "<tr>", "x", "<col>", "</table>", "<div>y", "</template>", "", "<tbody>", "</div>z"]));
+            },
             9 => {
                 // the "ignore a line feed that is the next token" rule x every kind of next token
                 out.push_str(*s.pick(&["<pre>", "<listing>", "<textarea>", "<PRE x=y>", "<div><pre>", "<table><pre>"]));
